@@ -20,7 +20,7 @@ RULE = ("seeded systems whose residues are split into given (-c), centre-only (-
         "handed to NonBondEngine.add_positions must equal the missing/named set, and after every remove_positions "
         "every supplied residue must still be in the engine at its supplied point. non-trivial = run with >= 1 "
         "supplied and >= 1 generated residue; distinct = hash(topology, input structure, options)"
-        ' Later strata: PDB inputs, -c together with -mc, -lig on hosts with supplied atoms / centres, -start (index and name form) on supplied residues, -ign with a density box and a structure without box; a molecule that has coordinates is never started on the grid.')
+        ' Later strata: PDB inputs, -c together with -mc, -lig on hosts with supplied atoms / centres, -start (index and name form) on supplied residues, -ign with a density box and a structure without box; a molecule that has coordinates is never started on the grid; molecules whose residues are not listed atom after atom (a capping atom listed last, all backbone atoms before the side chains, any order) with all / some molecules / all but the residues named by -res supplied.')
 ASSUMPTIONS = ["supplied coordinates are written with 3 decimals and must be reproduced digit for digit (|out - in| < 5e-8)",
                "centre-only residues: centre of geometry of the 3-decimal output atoms within 6e-4 nm of the given centre (C06 checks the exact in-memory value)",
                "ignored molecules get their coordinates from the input structure (they cannot be written otherwise)"]
@@ -31,12 +31,14 @@ REQUIRED = {"supplied_atoms_checked": 2000, "centre_only_residues": 100, "genera
             "prefix_runs": 20, "build_res_runs": 15, "ignore_runs": 25, "failed_attempts_seen": 40,
             "supplied_checks_after_removal": 200, "ignore_positions": 3,
             "meta_build_res_runs": 8, "injected_step_schedules": 30, "atoms_and_centres_runs": 20, "ligand_runs_with_supplied_hosts": 30, "ignore_runs_with_density_box": 15, "molecules_with_coordinates_continued": 200,
-            "pdb_inputs_with_three_or_more_molecules": 10}
+            "pdb_inputs_with_three_or_more_molecules": 10, "scattered_runs": 60, "scattered_supplied_atoms_checked": 600,
+            "scattered_runs_with_rebuilt_residues": 15}
 
 
 def plan(tier, seed):
     n = 500 if tier == "quick" else 5000
-    return [["split", i] for i in range(n)] + [["ign", i] for i in range(n // 3)] + [["lig", i] for i in range(n // 5)]
+    return [["split", i] for i in range(n)] + [["ign", i] for i in range(n // 3)] + [["lig", i] for i in range(n // 5)] + \
+        [["scattered", i] for i in range(n // 4)]
 
 
 def setup():
@@ -47,6 +49,8 @@ def run_case(cid, rng, workdir):
     res = new_result()
     if cid[0] == "ign":
         return run_ignore(cid, rng, workdir, res)
+    if cid[0] == "scattered":
+        return run_scattered(cid, rng, workdir, res)
     if cid[0] == "lig":
         # hosts with supplied atoms or centres, ligands (-lig) without coordinates: the only residues to generate are the
         # ligands; the residue a ligand is attached to keeps what was supplied for it
@@ -299,4 +303,112 @@ def run_ignore(cid, rng, workdir, res):
                 break
     bump(res, "failed_attempts_seen", len(ctx["failed_attempts"]))
     res["nontrivial"] = ngen > 0
+    return res
+
+
+# ----------------------------------------------------------------- residues whose atoms are not listed together
+def run_scattered(cid, rng, workdir, res):
+    """the [ atoms ] section lists the atoms of a residue in any place (GROMACS only asks for consecutive numbers): the
+    structure file and the output are in that order, and every supplied atom keeps its coordinates"""
+    ntypes = rng.randint(1, 2)
+    names = ["RA", "RB", "RC", "RD"]
+    moltypes, lines = [], ["[ defaults ]", "1 1 no 1.0 1.0", "[ atomtypes ]", "P 72.0 0.0 A 0.0 0.0",
+                           "[ nonbond_params ]", "P P 1 0.35 2.0"]
+    how_all = []
+    for t in range(ntypes):
+        nres = rng.randint(2, 5)
+        rnames = [rng.choice(names[2 * t:2 * t + 2]) for _ in range(nres)]
+        sizes = {rn: rng.randint(2, 3) for rn in set(rnames)}
+        atoms = [(ri, j) for ri in range(nres) for j in range(sizes[rnames[ri]])]
+        how = rng.choice(["cap_last", "cap_last", "backbone_first", "any"])
+        if how == "cap_last":
+            ri = rng.randrange(nres - 1)
+            cap = (ri, sizes[rnames[ri]] - 1)
+            atoms.remove(cap)
+            atoms.append(cap)
+        elif how == "backbone_first":
+            atoms.sort(key=lambda a: (a[1] > 0, a[0], a[1]))
+        else:
+            rng.shuffle(atoms)
+        how_all.append(how)
+        num = {a: k + 1 for k, a in enumerate(atoms)}
+        lines += ["[ moleculetype ]", "M%d 1" % t, "[ atoms ]"]
+        for (ri, j) in atoms:
+            lines.append("%d P %d %s A%d %d 0.0 72.0" % (num[(ri, j)], ri + 1, rnames[ri], j, num[(ri, j)]))
+        lines.append("[ bonds ]")
+        for ri in range(nres):
+            for j in range(1, sizes[rnames[ri]]):
+                lines.append("%d %d 1 0.3 5000" % (num[(ri, j - 1)], num[(ri, j)]))
+            if ri:
+                lines.append("%d %d 1 0.35 5000" % (num[(ri - 1, 0)], num[(ri, 0)]))
+        moltypes.append({"name": "M%d" % t, "rnames": rnames, "atoms": atoms, "count": rng.randint(1, 3)})
+    lines += ["[ system ]", "pvmon scattered", "[ molecules ]"] + ["%s %d" % (m["name"], m["count"]) for m in moltypes]
+    text = "\n".join(lines) + "\n"
+    (Path(workdir) / "s.top").write_text(text)
+    mols = [m for m in moltypes for _ in range(m["count"])]
+    used = sorted({rn for m in moltypes for rn in m["rnames"]})
+    mode = rng.choice(["full", "molecules", "res", "res"])
+    rebuild = []
+    nsup = len(mols)
+    if mode == "molecules":
+        nsup = rng.randint(1, len(mols))
+    elif mode == "res" and len(used) > 1:
+        rebuild = rng.sample(used, rng.randint(1, len(used) - 1))
+    b = 9.0
+    rows, want = [], {}
+    for mi, m in enumerate(mols[:nsup]):
+        y = 0.8 + 1.1 * mi
+        for (ri, j) in m["atoms"]:
+            if m["rnames"][ri] in rebuild:
+                continue
+            xyz = (round(0.7 + 0.45 * ri + 0.11 * j + rng.uniform(-0.02, 0.02), 3), round(y + 0.25 * j, 3),
+                   round(4.0 + rng.uniform(-0.05, 0.05), 3))
+            rows.append({"resid": ri + 1, "resname": m["rnames"][ri], "name": "A%d" % j, "xyz": xyz})
+            want[(mi, ri, j)] = xyz
+    T.write_gro(os.path.join(workdir, "in.gro"), rows, [b, b, b])
+    kw = {"coordpath": Path(workdir) / "in.gro"}
+    if rebuild:
+        kw["build_res"] = rebuild
+    ctx_kw = {}
+    if rng.random() < 0.3 and (rebuild or nsup < len(mols)):
+        ctx_kw["fail_attempts_left"] = rng.randint(1, 2)
+    outp = Path(workdir) / "o.gro"
+    run, ctx = CC.run_gen_coords(ctx_kw=ctx_kw, toppath=Path(workdir) / "s.top", outpath=outp, name="x", **kw)
+    w = {"top": text, "in.gro": open(os.path.join(workdir, "in.gro")).read(), "options": {"build_res": rebuild}}
+    res["sample"] = {"listing": how_all, "mode": mode, "molecules": len(mols), "supplied_molecules": nsup, "rebuilt": rebuild}
+    res["sig"] = sig_of([text, w["in.gro"], rebuild])
+    bump(res, "scattered_runs")
+    for h in how_all:
+        note(res, "scattered_listings", h)
+    if run["status"] != "ok":
+        res["status"] = "rejected"
+        violation(res, "crash:scattered:%s" % run["exc_type"], "gen_coords stopped with %s\n%s" %
+                  (run["error"], run.get("tb", "")[-500:]), w)
+        return res
+    gro = T.read_gro(str(outp))
+    exp = [(mi, ri, j, m["rnames"][ri]) for mi, m in enumerate(mols) for (ri, j) in m["atoms"]]
+    got = [(r["resid"], r["resname"], r["name"]) for r in gro["rows"]]
+    if got != [(ri + 1, rn, "A%d" % j) for (_mi, ri, j, rn) in exp]:
+        violation(res, "output-not-in-topology-order:scattered", "atoms written %s, the topology lists %s" %
+                  (got[:8], [(ri + 1, rn, "A%d" % j) for (_mi, ri, j, rn) in exp][:8]), w)
+        return res
+    ngen = 0
+    for (mi, ri, j, rn), r in zip(exp, gro["rows"]):
+        if not all(np.isfinite(x) for x in r["xyz"]):
+            violation(res, "non-finite-coordinate:scattered", "atom A%d of residue %s%d" % (j, rn, ri + 1), w)
+            return res
+        if (mi, ri, j) in want:
+            bump(res, "scattered_supplied_atoms_checked")
+            bump(res, "supplied_atoms_checked")
+            if any(abs(a - c) > 5e-8 for a, c in zip(r["xyz"], want[(mi, ri, j)])):
+                violation(res, "supplied-atom-moved:atoms-of-a-residue-not-listed-together",
+                          "atom A%d of residue %s%d (molecule %d, listing %s) given at %s is written at %s" %
+                          (j, rn, ri + 1, mi, how_all, want[(mi, ri, j)], r["xyz"]), w)
+                return res
+        else:
+            ngen += 1
+    if ngen:
+        bump(res, "scattered_runs_with_rebuilt_residues")
+    bump(res, "failed_attempts_seen", len(ctx["failed_attempts"]))
+    res["nontrivial"] = True
     return res
